@@ -32,9 +32,16 @@ Definition chain_process_drift_gen_opt (ps : list (Q * Q * Q)) (xs : list Q) (o 
 (* LevyTriplet(sigma, TruncatedLevyMeasure(StepMeasure(ps), (l, r)), a, rep).set_representation(target) observed from outside:
    None when the call raises (ValueError of the conversions = the sentinel), else (triplet.a, triplet.representation.value);
    pinf = 1 + |l| + |r| stands for np.inf *)
+(* wave 8 (audit 5a, B5): the generated conversions signal a `raise` with the VALUE err, and arithmetic does not propagate it:
+   center_drift on a ZERO-declared triplet of infinite variation is err + tails, a number, while levymodel.py raises ValueError
+   ('the ZERO representation requires jumps of finite variation').  The observation wrapper therefore makes the error ABSORBING with
+   an explicit, hand-written guard = the calls that raise: a conversion (target <> current) FROM or TO ZERO with jumps of infinite
+   variation.  The guard is tied to /repo by the groups setrep1/setrep2, which drive exactly those calls too (expected: None). *)
+Definition setrep_call_raises (target rep : Z) (fv : bool) : bool :=
+  negb fv && negb (Z.eqb target rep) && (Z.eqb target 1 || Z.eqb rep 1).
 Definition step_set_representation (ps : list (Q * Q * Q)) (l r : Q) (target rep : Z) (fv : bool) (a : Q) : option (Q * Z) :=
   let s := set_representation (tmass (step_m1 ps) l r) (1 + Qabs l + Qabs r) chain_err target rep fv a in
-  if Qeq_bool (fst s) chain_err then None else Some s.
+  if setrep_call_raises target rep fv then None else if Qeq_bool (fst s) chain_err then None else Some s.
 (* two calls in a row: set_representation(t1) then set_representation(t2) on the same triplet *)
 Definition step_set_representation2 (ps : list (Q * Q * Q)) (l r : Q) (t1 t2 rep : Z) (fv : bool) (a : Q) : option (Q * Z) :=
   match step_set_representation ps l r t1 rep fv a with
